@@ -179,7 +179,7 @@ def bitEval (case : Json) : Json :=
       | some benv =>
         match bitStmts benv d.body with
         | none => Json.mkObj [("outside", true)]
-        | some (_, bits, p) =>
+        | some (_, bits, p, _) =>
           Json.mkObj [("bits", bitsToString bits), ("panic", match p with | some k => Json.str (panicName k) | none => Json.null)]).toArray)]
 
 end GVD
